@@ -21,10 +21,11 @@ const (
 	KeySetter          // SetSPKeyStore / SetSPSigningKeyStore
 	KeyBoth            // field and setter, same key
 	KeyTLS             // field holding a dsig.TLSCertKeyStore
+	KeyBothDiffer      // setter holds the key; the deprecated field holds another one (setter wins)
 )
 
 func (k KeyStyle) String() string {
-	return [...]string{"none", "field", "setter", "both", "tls"}[k]
+	return [...]string{"none", "field", "setter", "both", "tls", "both-differ"}[k]
 }
 
 // SPConfig is the drawn configuration of one service provider node. Build turns it into
@@ -172,6 +173,16 @@ func applyKeyRaw(sp *saml2.SAMLServiceProvider, st KeyStyle, keyIdx int, cert *C
 	case KeyBoth:
 		if err := field(); err != nil {
 			return err
+		}
+		return setter()
+	case KeyBothDiffer:
+		other := Key((keyIdx + 1) % NumRSA2048)
+		oc := MintCert(other.Idx, cert.X509.NotBefore, cert.X509.NotAfter, 9)
+		ks := &FieldKeyStore{Key: other.RSA, Cert: oc.DER}
+		if signing {
+			sp.SPSigningKeyStore = ks
+		} else {
+			sp.SPKeyStore = ks
 		}
 		return setter()
 	}
